@@ -163,8 +163,14 @@ pub fn construct(k: usize, i: usize, sp: &str) -> MDef {
         32 => {
             // prelude with attributes before the doc comment
             let mut d = st(&n("SPre", i), vec![MField::new("a", MType::prim("int32"))]);
-            *d.common_mut() = d.common().clone().attr(cs("cs::first")).doc(&[" After attribute."]);
-            d.common_mut().attrs_first = true;
+            if i % 2 == 1 {
+                // ... or with the attributes between the lines of the doc comment
+                *d.common_mut() = d.common().clone().attr(cs("cs::first")).attr(cs("cs::second")).doc(&[&format!(" Before the attributes {{@link {sp}HS}}."), " After them.", &format!(" @see {sp}HE")]);
+                d.common_mut().interleaved = true;
+            } else {
+                *d.common_mut() = d.common().clone().attr(cs("cs::first")).doc(&[" After attribute."]);
+                d.common_mut().attrs_first = true;
+            }
             d
         }
         33 => iface(
